@@ -335,10 +335,112 @@ def _sim_sleep(secs):
     return _real["time.sleep"](secs)
 
 
+def _active():
+    s = _STATE["sched"]
+    return s is not None and s.current is not None
+
+
+def _install_datetime():
+    """datetime.now()/utcnow()/today() and date.today() read the C-level clock directly.  Subclasses that read
+    the simulated clock while a run is active are prepared here (the technique freezegun uses) and are put
+    into the *namespaces of the modules under test* by patch_datetime_in(); replacing datetime.datetime
+    process-wide before third-party C extensions (pandas, numpy) are imported crashes the interpreter."""
+    import datetime as _dt
+    real_dt, real_date = _dt.datetime, _dt.date
+    _real["datetime.datetime"], _real["datetime.date"] = real_dt, real_date
+
+    class _DtMeta(type):
+        def __instancecheck__(cls, obj):
+            return isinstance(obj, real_dt)
+
+        def __subclasscheck__(cls, sub):
+            return issubclass(sub, real_dt)
+
+    class _DateMeta(type):
+        def __instancecheck__(cls, obj):
+            return isinstance(obj, real_date)
+
+        def __subclasscheck__(cls, sub):
+            return issubclass(sub, real_date)
+
+    class SimDateTime(real_dt, metaclass=_DtMeta):
+        @classmethod
+        def now(cls, tz=None):
+            if _active():
+                return real_dt.fromtimestamp(_STATE["clock"].now / 1e9, tz)
+            return real_dt.now(tz)
+
+        @classmethod
+        def utcnow(cls):
+            if _active():
+                return real_dt.fromtimestamp(_STATE["clock"].now / 1e9, _dt.timezone.utc).replace(tzinfo=None)
+            return real_dt.now(_dt.timezone.utc).replace(tzinfo=None)
+
+        @classmethod
+        def today(cls):
+            return cls.now()
+
+    class SimDate(real_date, metaclass=_DateMeta):
+        @classmethod
+        def today(cls):
+            if _active():
+                return real_dt.fromtimestamp(_STATE["clock"].now / 1e9).date()
+            return real_date.today()
+
+    SimDateTime.__name__ = SimDateTime.__qualname__ = "datetime"
+    SimDate.__name__ = SimDate.__qualname__ = "date"
+
+    class _DtModuleShim:
+        """stands in for the `datetime` module inside a module under test"""
+        datetime = SimDateTime
+        date = SimDate
+
+        def __getattr__(self, name):
+            return getattr(_dt, name)
+
+    _STATE["SimDateTime"], _STATE["SimDate"], _STATE["dt_shim"] = SimDateTime, SimDate, _DtModuleShim()
+
+
+def patch_datetime_in(module):
+    """Replace references to datetime.datetime / datetime.date / the datetime module held by `module`.
+    Returns the list of (name, old value) to restore."""
+    import datetime as _dt
+    saved = []
+    for name, val in list(vars(module).items()):
+        new = None
+        if val is _real["datetime.datetime"]:
+            new = _STATE["SimDateTime"]
+        elif val is _real["datetime.date"]:
+            new = _STATE["SimDate"]
+        elif val is _dt:
+            new = _STATE["dt_shim"]
+        if new is not None:
+            saved.append((name, val))
+            setattr(module, name, new)
+    return saved
+
+
+def _sim_localtime(secs=None):
+    if secs is None and _active():
+        secs = _STATE["clock"].now / 1e9
+    return _real["time.localtime"](secs) if secs is not None else _real["time.localtime"]()
+
+
+def _sim_gmtime(secs=None):
+    if secs is None and _active():
+        secs = _STATE["clock"].now / 1e9
+    return _real["time.gmtime"](secs) if secs is not None else _real["time.gmtime"]()
+
+
 def install_global():
     """Patch process-wide names once.  With no world bound, every wrapper passes through."""
     if _STATE["installed"]:
         return
+    _install_datetime()
+    for n in ("localtime", "gmtime"):
+        _real["time." + n] = getattr(_time, n)
+    _time.localtime = _sim_localtime
+    _time.gmtime = _sim_gmtime
     for n in _OS_NAMES:
         if hasattr(os, n):
             _real[n] = getattr(os, n)
